@@ -1,7 +1,7 @@
 (* C02 — HTTP/1 responses: one per request, in order, self-framed, body-faithful.
    Only statements here; proofs live in H1/EncoderProofs.v and H1/RespSeqProofs.v.
    Models: H1/Encoder.v (Codec::encode, MessageEncoder::encode, encode_headers, TransferEncoding;
-   the tree with fixes F1, F2, F18, F23 applied), H1/RespSeq.v (dispatcher response state machine
+   the tree with fixes F1, F2, F12, F18, F23 applied), H1/RespSeq.v (dispatcher response state machine
    at event granularity).  Specification: H1/RespSpec.v (independent RFC 7230 response reader). *)
 From Coq Require Import String Sorting.Sorted.
 From AV Require Import Lib.Base H1.Encoder H1.RespSpec H1.RespSeq H1.EncoderProofs H1.RespSeqProofs.
@@ -166,55 +166,32 @@ Theorem C02_framing_from_own_context : forall (c c' : codec) (rq : reqctx) (r : 
   c_conn (item_codec (codec_decode c rq) r sz) = c_conn (item_codec (codec_decode c' rq) r sz).
 Proof. exact framing_from_own_context. Qed.
 
-(* ... but the code as it is writes the context at decode time and reads it at encode time
-   (finding F12): GET /0 whose handler is pending, then HEAD /1 decoded, then handler 0 completes:
-   response 0 is encoded with request 1's context — its head differs from the one its own
-   request determines, and its 2-byte body is not written. *)
+(* In the dispatcher (with the F12 repair: the context of the response in flight is restored
+   after a request that is only queued has been decoded, and a queued request's context is
+   re-derived when it is dispatched) this holds for EVERY schedule, every handler and body
+   script: each response head appended to write_buf is the one determined by its own request and
+   its own response, whatever else was decoded or answered in between. *)
 Definition own_head (ka : bool) (rq : reqctx) (h : hscript) : head :=
   item_head (codec_decode (codec_new ka) rq) (h_resp h) (h_size h).
 
-Theorem C02_refuted_pipelined_context :
-  exists (reqs : list reqctx) (hs : list hscript) (es : list event) (h : head) (b : bytes),
-    arr_ok O es /\
-    let d := run reqs hs 32768 (d_init true) es in
-    let h0 := nth O hs dflt_h in
-    (* response 0 is complete on the wire: its head and NO body byte *)
-    d_out d = [UHead (Some O) h; UData O []; UData O []] /\ d_st d = SService 1 /\
-    (* although its body produced the chunk b, which its own request's context would frame as b *)
-    h_body h0 = [BChunk b] /\ b <> [] /\
-    snd (codec_encode_chunks (item_codec (codec_decode (codec_new true) (nth O reqs dflt_req))
-                                         (h_resp h0) (h_size h0)) [b]) = b.
-Proof.
-  exists [mkReq false V11 None false false; mkReq true V11 None false false],
-         [mkH 1 false (mkResp 200 None false []) KPlain (BSized 2) [BChunk [97; 98]];
-          mkH 5 false (mkResp 200 None false []) KPlain (BSized 0) []],
-         [EvArrive 0; EvTick; EvArrive 1; EvTick; EvTick; EvTick].
-  eexists. exists [97; 98]. split; [cbn; tauto|]. cbv zeta. split; [vm_compute; reflexivity|].
-  split; [vm_compute; reflexivity|]. split; [reflexivity|]. split; [discriminate|].
-  vm_compute. reflexivity.
-Qed.
-
-(* Outside that class the positive statement holds for EVERY schedule: if no request is decoded
-   while an earlier response head is still to be encoded (each arrival finds the queue empty and
-   the dispatcher idle or already streaming a body; no CONNECT/upgrade requests), then every
-   response head on the wire is the one determined by its own request and its own response. *)
-Theorem C02_heads_from_own_context_outside_F12 :
+Theorem C02_framing_depends_only_on_own_request :
   forall (reqs : list reqctx) (hs : list hscript) (wbs : N) (ka : bool) (es : list event),
   Forall (fun r => rq_stream r = false) reqs ->
-  nw reqs hs wbs (d_init ka) es ->
   forall j h, In (UHead (Some j) h) (d_out (run reqs hs wbs (d_init ka) es)) ->
   h = own_head ka (nth j reqs dflt_req) (nth j hs dflt_h).
-Proof. intros reqs hs wbs ka es Hs Hn j h Hin. exact (heads_from_own_context reqs hs wbs ka Hs es Hn j h Hin). Qed.
+Proof. intros reqs hs wbs ka es Hs j h Hin. exact (heads_from_own_context reqs hs wbs ka Hs es j h Hin). Qed.
 
-Example C02_no_window_example :
-  let reqs := [mkReq false V11 None false false; mkReq true V10 (Some CKeepAlive) false false] in
-  let hs := [mkH 0 false (mkResp 200 None false []) KPlain BStream [BPend; BChunk [97]];
-             mkH 0 false (mkResp 200 None false []) KPlain (BSized 1) [BChunk [98]]] in
-  (* request 1 arrives while the body of response 0 is being streamed *)
-  let es := [EvArrive 0; EvTick; EvTick; EvArrive 1; EvTick; EvTick; EvTick; EvTick; EvTick] in
-  nw reqs hs 32768 (d_init true) es /\
-  d_started (run reqs hs 32768 (d_init true) es) = [O; 1%nat].
-Proof. cbv zeta. split; [|vm_compute; reflexivity]. cbn [nw]. vm_compute. intuition eauto. Qed.
+(* the former F12 witness (GET /0 pending, HEAD /1 decoded meanwhile, then handler 0 completes):
+   response 0 now carries its 2-byte body, response 1 (HEAD) none *)
+Example C02_pipelined_context_example :
+  let reqs := [mkReq false V11 None false false; mkReq true V10 None false false] in
+  let hs := [mkH 1 false (mkResp 200 None false []) KPlain (BSized 2) [BChunk [97; 98]];
+             mkH 0 false (mkResp 200 None false []) KPlain (BSized 2) [BChunk [99; 100]]] in
+  let es := [EvArrive 0; EvTick; EvArrive 1; EvTick; EvTick; EvTick; EvTick; EvTick; EvTick] in
+  let d := run reqs hs 32768 (d_init true) es in
+  map (fun u => match u with UData j b => (j, b) | UHead (Some j) h => (j, firstn 8 (hd_status_line h)) | _ => (O, []) end) (d_out d) =
+  [(O, str "HTTP/1.1"); (O, [97; 98]); (O, []); (1%nat, str "HTTP/1.0"); (1%nat, []); (1%nat, [])].
+Proof. vm_compute. reflexivity. Qed.
 
 (* ------------------------------------------------------------------ further known class *)
 (* F18b: for a CONNECT / websocket-upgrade request (codec STREAM flag) answered with a streaming
